@@ -120,6 +120,9 @@ def slices_to_raw_chunks(slice_filename_lists, dest_url, input_orientation,
         if input_axis_inversions[2] == -1:
             first_slice = input_size[2] - first_slice_in_order - 1
             last_slice = input_size[2] - last_slice_in_order - 1
+            if last_slice < 0:
+                # a stop value of -1 would be interpreted relative to the end
+                last_slice = None
         else:
             first_slice = first_slice_in_order
             last_slice = last_slice_in_order
@@ -127,7 +130,9 @@ def slices_to_raw_chunks(slice_filename_lists, dest_url, input_orientation,
                               : last_slice
                               : input_axis_inversions[2]]
         tqdm.write("Reading slices {} to {} ({}B memory needed)... "
-                   .format(first_slice, last_slice - input_axis_inversions[2],
+                   .format(first_slice,
+                           (-1 if last_slice is None else last_slice)
+                           - input_axis_inversions[2],
                            readable_count(input_size[0]
                                           * input_size[1]
                                           * (last_slice_in_order
